@@ -122,6 +122,7 @@ type Sched struct {
 	BlockTimeout   time.Duration
 	RecheckTimeout time.Duration
 	AdoptPrefix    string
+	Families       []string // library label families this run schedules (empty = all)
 	off            bool
 	spawns         int
 	tnames         []string
@@ -134,6 +135,21 @@ type Sched struct {
 	Probe          bool
 	ProbeWait      time.Duration
 	ProbeWaitShort time.Duration
+}
+
+// libFamilies are the label prefixes of the verifYield points in /repo, one family per instrumented
+// area. A Sched with Families set parks only at labels of those families (and at the harness's own
+// labels, which belong to no family); the others return at once.
+var libFamilies = []string{"ops.", "dc.", "dcid:", "flush.", "gather.", "mux.", "origin.", "close.", "ucs."}
+
+func labelFamily(label string) string {
+	for _, f := range libFamilies {
+		if strings.HasPrefix(label, f) {
+			return f
+		}
+	}
+
+	return ""
 }
 
 // NewSched creates a scheduler; install its Yield with the library's VerifSetYield.
@@ -180,6 +196,13 @@ func (s *Sched) Yield(label string) {
 	if len(label) > 0 && label[0] == '!' {
 		gid := curGID()
 		s.mu.Lock()
+		if _, known := s.byGID[gid]; !known && len(s.Families) > 0 {
+			// a note from a goroutine this scheduler does not control (e.g. the operations queue of a
+			// real PeerConnection used by a run that schedules something else)
+			s.mu.Unlock()
+
+			return
+		}
 		switch label {
 		case "!spawn":
 			s.spawns++
@@ -195,6 +218,18 @@ func (s *Sched) Yield(label string) {
 		s.mu.Unlock()
 
 		return
+	}
+	// yield points that other properties added to the library are not this run's business
+	if fam := labelFamily(label); fam != "" && len(s.Families) > 0 {
+		mine := false
+		for _, f := range s.Families {
+			if f == fam {
+				mine = true
+			}
+		}
+		if !mine {
+			return
+		}
 	}
 	gid := curGID()
 	s.mu.Lock()
